@@ -1,3 +1,21 @@
+/// Stack of the thread that runs the command.  Parsing, the translations, the simplifications and the
+/// formatters are recursive on the syntax tree; on the default 8 MB main-thread stack a program with a
+/// few thousand nested operators or parentheses (3 KB of text) ended in `thread 'main' has overflowed
+/// its stack` / SIGABRT instead of a result or an error message.  The memory is only reserved.
+const STACK_SIZE: usize = 1 << 30;
+
 fn main() -> anyhow::Result<()> {
-    anthem::main()
+    match std::thread::Builder::new()
+        .name("main".into())
+        .stack_size(STACK_SIZE)
+        .spawn(anthem::main)
+    {
+        Ok(handle) => match handle.join() {
+            Ok(result) => result,
+            // the command panicked: the message is already printed; keep the exit status of a panic
+            Err(_) => std::process::exit(101),
+        },
+        // no such stack available: run on the main thread as before
+        Err(_) => anthem::main(),
+    }
 }
